@@ -25,7 +25,7 @@ from typing import Any, Callable, Dict, List, Optional, Tuple
 
 from hypothesis import strategies as st
 
-from ..core import CaseResult, Family, HarnessError, Violation
+from ..core import CaseResult, Family, HarnessError, Violation, pick
 from ..engines import memwire
 from ..engines.memwire import Pair, asyncssh
 
@@ -645,24 +645,24 @@ def socks_strategy(tier: str):
     big = tier != 'quick'
     payload = st.one_of(st.just(b''), st.binary(min_size=1, max_size=40),
                         st.binary(min_size=1, max_size=600 if big else 200))
-    port = st.one_of(st.sampled_from([0, 1, 22, 80, 255, 256, 443, 0x1234,
+    port = st.one_of(pick([0, 1, 22, 80, 255, 256, 443, 0x1234,
                                       65535]), st.integers(0, 65535))
     user = st.one_of(st.just(b''), st.just(b'root'),
                      st.binary(max_size=12).map(
                          lambda b: b.replace(b'\0', b'\1')),
                      st.integers(250, 258).map(lambda n: b'u' * n))
     hostname = st.one_of(
-        st.sampled_from(['localhost', 'a.example.com', 'x', '1.2.3.4',
+        pick(['localhost', 'a.example.com', 'x', '1.2.3.4',
                          'xn--bcher-kva.example', 'bücher.example']),
         st.text(st.characters(blacklist_characters='\0',
                               blacklist_categories=('Cs',)),
                 min_size=1, max_size=12))
-    ipv4 = st.one_of(st.sampled_from([b'\x7f\0\0\1', b'\0\0\0\0',
+    ipv4 = st.one_of(pick([b'\x7f\0\0\1', b'\0\0\0\0',
                                       b'\0\0\1\0', b'\1\0\0\0',
                                       b'\xff\xff\xff\xff']),
                      st.binary(min_size=4, max_size=4).filter(
                          lambda b: b[:3] != b'\0\0\0' or b[3] == 0))
-    ipv6 = st.one_of(st.sampled_from([b'\0' * 15 + b'\1', b'\0' * 16,
+    ipv6 = st.one_of(pick([b'\0' * 15 + b'\1', b'\0' * 16,
                                       b'\x20\x01\x0d\xb8' + b'\0' * 11 +
                                       b'\x05']),
                      st.binary(min_size=16, max_size=16))
@@ -684,7 +684,7 @@ def socks_strategy(tier: str):
         others = draw(st.lists(st.integers(1, 255), max_size=4))
         where = draw(st.integers(0, len(others)))
         methods = bytes(others[:where] + [0] + others[where:])
-        kind = draw(st.sampled_from(['4', 'h', '6']))
+        kind = draw(pick(['4', 'h', '6']))
 
         if kind == '4':
             addr = b'\x01' + draw(st.one_of(
@@ -703,7 +703,7 @@ def socks_strategy(tier: str):
     @st.composite
     def mutated(draw):
         req = bytearray(draw(valid))
-        how = draw(st.sampled_from(['flip', 'flip', 'del', 'ins', 'trunc',
+        how = draw(pick(['flip', 'flip', 'del', 'ins', 'trunc',
                                     'head']))
         idx = draw(st.integers(0, len(req) - 1))
 
@@ -718,13 +718,13 @@ def socks_strategy(tier: str):
         else:
             # the header positions are where the grammar lives
             idx = draw(st.integers(0, min(len(req) - 1, 9)))
-            req[idx] = draw(st.sampled_from([0, 1, 2, 3, 4, 5, 6, 255]))
+            req[idx] = draw(pick([0, 1, 2, 3, 4, 5, 6, 255]))
 
         return bytes(req)
 
     raw = st.one_of(
         st.binary(max_size=24),
-        st.lists(st.sampled_from([b'\x04', b'\x05', b'\x01', b'\x00',
+        st.lists(pick([b'\x04', b'\x05', b'\x01', b'\x00',
                                   b'\x03', b'\x02', b'\xff', b'a']),
                  max_size=14).map(b''.join))
 
@@ -738,8 +738,8 @@ def socks_strategy(tier: str):
             'stream': req + pay, 'cuts': cuts, 'open': opn, 'delay': delay,
             'eof': eof, 'reply': reply},
         request, payload, cuts,
-        st.sampled_from(['ok', 'ok', 'ok', 'fail']),
-        st.sampled_from([0, 0, 1, 2, 5, 1000]), st.booleans(),
+        pick(['ok', 'ok', 'ok', 'fail']),
+        pick([0, 0, 1, 2, 5, 1000]), st.booleans(),
         st.one_of(st.just(b''), st.binary(min_size=1, max_size=20)))
 
 
@@ -1236,20 +1236,20 @@ def run_perm(case) -> CaseResult:
 
 
 def perm_strategy(tier: str):
-    host = st.sampled_from(HOSTS)
-    port = st.sampled_from(PORTS)
+    host = pick(HOSTS)
+    port = pick(PORTS)
     entry = st.tuples(host, st.one_of(port, port, st.just('*'))).map(list)
-    tcp_answer = st.sampled_from(TCP_ALLOW + ['session', 'false', 'raise'])
-    lst_answer = st.sampled_from(LISTEN_ALLOW + ['listener', 'false',
+    tcp_answer = pick(TCP_ALLOW + ['session', 'false', 'raise'])
+    lst_answer = pick(LISTEN_ALLOW + ['listener', 'false',
                                                  'coro-false'])
     req = st.one_of(
         st.tuples(st.just('tcp'), host, port, tcp_answer),
         st.tuples(st.just('tcp'), host, port, tcp_answer),
-        st.tuples(st.just('unix'), st.sampled_from(UPATHS), tcp_answer),
-        st.tuples(st.just('listen'), st.sampled_from(['', 'localhost',
+        st.tuples(st.just('unix'), pick(UPATHS), tcp_answer),
+        st.tuples(st.just('listen'), pick(['', 'localhost',
                                                       '10.0.0.1']),
-                  st.sampled_from([0, 2222, 8080]), lst_answer),
-        st.tuples(st.just('ulisten'), st.sampled_from(UPATHS), lst_answer),
+                  pick([0, 2222, 8080]), lst_answer),
+        st.tuples(st.just('ulisten'), pick(UPATHS), lst_answer),
     ).map(list)
 
     def uniq(reqs):
@@ -1269,18 +1269,18 @@ def perm_strategy(tier: str):
         return out
 
     return st.fixed_dictionaries({
-        'auth': st.sampled_from(['password', 'key', 'key', 'cert', 'cert']),
-        'no_pf': st.sampled_from([False, False, True]),
-        'cert_pf': st.sampled_from([True, True, False]),
+        'auth': pick(['password', 'key', 'key', 'cert', 'cert']),
+        'no_pf': pick([False, False, True]),
+        'cert_pf': pick([True, True, False]),
         'permitopen': st.one_of(st.just([]),
                                 st.lists(entry, min_size=1, max_size=3)),
         'brackets': st.booleans(),
-        'noise': st.lists(st.sampled_from(['no-pty', 'no-agent-forwarding',
+        'noise': st.lists(pick(['no-pty', 'no-agent-forwarding',
                                            'no-X11-forwarding']),
                           max_size=2, unique=True),
         'reqs': st.lists(req, min_size=1, max_size=4).map(uniq),
         'cancel': st.booleans(),
-        'end': st.sampled_from(['close', 'abort', 'sclose', 'cut']),
+        'end': pick(['close', 'abort', 'sclose', 'cut']),
     })
 
 
@@ -2430,29 +2430,29 @@ def relay_strategy(tier: str):
     if tier != 'quick':
         sizes += [300000, 2500000]
 
-    size = st.one_of(st.sampled_from(sizes), st.integers(1, 2000))
-    small = st.one_of(st.just(0), st.just(0), st.sampled_from([1, 100, 5000]),
+    size = st.one_of(pick(sizes), st.integers(1, 2000))
+    small = st.one_of(st.just(0), st.just(0), pick([1, 100, 5000]),
                       st.integers(1, 300))
     op = st.one_of(
         st.tuples(st.just('a'), size).map(list),
         st.tuples(st.just('b'), size).map(list),
         st.just(['sync']), st.just(['yield']),
-        st.tuples(st.just('pause'), st.sampled_from(['a', 'b'])).map(list),
-        st.tuples(st.just('flood'), st.sampled_from(['a', 'b']),
-                  st.sampled_from([400000, 700000])).map(list))
+        st.tuples(st.just('pause'), pick(['a', 'b'])).map(list),
+        st.tuples(st.just('flood'), pick(['a', 'b']),
+                  pick([400000, 700000])).map(list))
 
     return st.fixed_dictionaries({
-        'kind': st.sampled_from(KINDS[:7] + KINDS[:5] + KINDS),
-        'socks': st.sampled_from(['4', '4a', '5', '5h']),
+        'kind': pick(KINDS[:7] + KINDS[:5] + KINDS),
+        'socks': pick(['4', '4a', '5', '5h']),
         'pipelined': st.booleans(),
         'early': small,
         'banner': small,
-        'accept': st.sampled_from(['none', 'none', 'allow', 'coro-allow',
+        'accept': pick(['none', 'none', 'allow', 'coro-allow',
                                    'deny', 'coro-deny']),
-        'bystander': st.sampled_from([False, False, True]),
-        'slow': st.sampled_from([False, False, True]),
+        'bystander': pick([False, False, True]),
+        'slow': pick([False, False, True]),
         'ops': st.lists(op, max_size=6),
-        'end': st.sampled_from(['a_half', 'b_half', 'a_half', 'b_half',
+        'end': pick(['a_half', 'b_half', 'a_half', 'b_half',
                                 'a_close', 'b_close', 'a_abort', 'b_abort',
                                 'conn_close', 'conn_abort', 'sconn_abort']),
         'tail': st.one_of(st.just(0), size),
@@ -2616,12 +2616,12 @@ def run_release(case) -> CaseResult:
 
 def release_strategy(tier: str):
     return st.fixed_dictionaries({
-        'listeners': st.lists(st.sampled_from(REL_KINDS), min_size=1,
+        'listeners': st.lists(pick(REL_KINDS), min_size=1,
                               max_size=4),
         'active': st.integers(0, 2),
-        'explicit': st.sampled_from([False, False, True]),
-        'inflight': st.sampled_from([0, 0, 1, 2]),
-        'end': st.sampled_from(['close', 'abort', 'sabort', 'sclose',
+        'explicit': pick([False, False, True]),
+        'inflight': pick([0, 0, 1, 2]),
+        'end': pick(['close', 'abort', 'sabort', 'sclose',
                                 'cut']),
     })
 
